@@ -108,11 +108,14 @@ func (l *Lexer) NextToken() token.Token {
 	}
 
 	if l.char == '{' && l.peekChar() == '{' {
+		start := l.pos
 		tok := l.bracesToken(token.LBRACES, "{{")
 
 		if l.char == '-' && l.peekChar() == '-' {
+			// a comment without its terminator is one illegal token,
+			// its text is everything from "{{--" to the end of the input
 			if !l.skipComment() {
-				return l.newToken(token.ILLEGAL, "{{--")
+				return l.newToken(token.ILLEGAL, l.input[start:])
 			}
 
 			return l.NextToken()
@@ -152,7 +155,9 @@ func (l *Lexer) illegalToken() token.Token {
 	l.tokenBegins()
 	l.readChar() // skip the illegal character
 
-	return l.newToken(token.ILLEGAL, string(char))
+	// the token's text is the byte itself, not the
+	// character with that code point (which is two bytes from 0x80 on)
+	return l.newToken(token.ILLEGAL, string([]byte{char}))
 }
 
 func (l *Lexer) directiveToken() token.Token {
